@@ -76,7 +76,7 @@ CHECKS = {
          'inlining the fresh nonterminals reproduces the original rule with every edge exactly once and nodes shared only through externals) and the solver decides that sum_product of the factorized FGG equals that of the original for all factor weights, per cell. '
          'Right level: a lost, duplicated or re-attached edge changes the sum-product polynomial, which the solver compares for all values at once.',
     note='Bounds: rules with <=5 nodes, <=5 edges of arity 0-3, <=2 externals, <=26 weights; hand-written shapes + seeded family; 3 methods; 4 semirings (T regime Viterbi/Bool, positive weights Real/Log). '
-         'Name freshness is checked on the names the run produces (no symbolic-string exploration of unique_label_name).',
+         'Name freshness is checked on the names the run produces (no symbolic-string exploration of unique_label_name). Fresh names are also checked against an adversarial label table (the grammar re-factorized with an extra terminal named like the first fresh nonterminal).',
     technique='symbolic execution + SMT equivalence of sum-products (z3); structural inlining check per path', design='5/C05'),
  'C10': dict(
     text='The adjacency matrix of the input graph is a vector of solver variables and the symbolic executor partitions the whole space of graphs up to the vertex bound; on every path the real tree_decomposition / min_fill / quickbb / minor_min_width code runs '
